@@ -19,7 +19,8 @@ def contain1(t0: bool, t1: bool, t2: bool, t3: bool, text: str, close: bool) -> 
     pre: len(text) <= 1
     post: _
     """
-    tick()
+    if tick():
+        return True
     term = bits(t0, t1, t2, t3)
     if term >= len(TERMINATIONS) or not TERMINATIONS[term][2]:
         return True
@@ -73,7 +74,8 @@ def compile_fail(c0: bool, c1: bool, c2: bool, e: bool) -> bool:
     pre: True
     post: _
     """
-    tick()
+    if tick():
+        return True
     k = bits(c0, c1, c2)
     if k >= len(CODES):
         return True
@@ -104,7 +106,8 @@ def contain_reach(t0: bool, t1: bool, t2: bool, t3: bool) -> bool:
     pre: True
     post: _
     """
-    tick()
+    if tick():
+        return True
     term = bits(t0, t1, t2, t3)
     if term >= len(TERMINATIONS) or not TERMINATIONS[term][2]:
         return True
@@ -132,7 +135,8 @@ def contain_threaded(t0: bool, t1: bool, t2: bool, t3: bool, e0: bool, e1: bool)
     pre: True
     post: _
     """
-    tick()
+    if tick():
+        return True
     term, entry = bits(t0, t1, t2, t3), bits(e0, e1)
     if term >= len(TERMINATIONS) or not TERMINATIONS[term][2] or entry >= 3:
         return True
